@@ -12,7 +12,7 @@ FUNCTIONS = ['flowdyn.modeldisc.base.rhs', 'flowdyn.modeldisc.fvm1d.*', 'flowdyn
 BOUNDS = ('operator level: n=4 cells with arbitrary monotone faces (1D), 3x2 grid with lx,ly symbolic (2D); every cell holds the '
           'same symbolic admissible state (any Mach number; the flow direction required by the boundary pair, any angle when '
           'periodic); all fluxes x all reconstructions (quick: representative subset) x boundary pairs {periodic, dirichlet, '
-          'inlet/outlet pairs in both orientations with ptot, rttot, p computed by the real variable functions}; gamma 2 (quick) '
+          'inlet/outlet pairs in both orientations with ptot, rttot, p computed by the real variable functions}; gamma 2 (quick; 7/5 in the quick tier only as a bounded search with a 3 s solver timeout) '
           '+ 7/5 (thorough). Integrator level: one step of every integrator on a stub RHS constrained only by "RHS(W)=0" '
           '(K = M_j.(data-W), M_j fresh per call), scalar and per-cell dt, including a state with an identically zero component')
 OUTSIDE = 'round-off residual (1e-16 level) of the real floats; gamma other than listed'
@@ -36,6 +36,13 @@ def configs(tier):
             for a, b in (PAIRS[:6] if q and num != 'extrapol3' else PAIRS):
                 for orient in ('lr', 'rl'):
                     out.append({'level': 'op1d', 'model': m, 'flux': fl, 'num': num, 'bc': [a, b], 'orient': orient, 'gamma': g})
+    if q:
+        # gamma = 2 makes the exponents of the total-condition formulas trivial: the quick tier also runs gamma = 7/5 with a short solver
+        # timeout (bounded search for violations by simulation-guided models, replayed); the proofs are in the thorough tier
+        for a, b in PAIRS:
+            for orient in ('lr', 'rl'):
+                out.append({'level': 'op1d', 'model': 'euler1d', 'flux': 'centered', 'num': 'extrapol1', 'bc': [a, b], 'orient': orient,
+                            'gamma': '7/5', 'timeout_ms': 3000, 'sweep_budget_s': 10, 'guided_tries': 300})
     for m, fls in (('convection', [None]), ('burgers', [None]), ('shallowwater', cm.FLUXES['shallowwater'])):
         for fl in fls:
             for num in (['muscl:vanleer'] if q else ['extrapol1', 'extrapol3', 'muscl:vanleer', 'muscl:minmod']):
